@@ -738,7 +738,11 @@ def main(tier):
                 "self-imports, duplicate and external imports, hubs with fan-in 10..12), one cycle of each size 2..12 around the "
                 "severity thresholds, generated Python projects through `pyscn analyze --json --select deps` and `pyscn check` (also --max-cycles at the "
                 "number of cycles and next to it, --allow-circular-deps, a full analyze, the suggestions derived from the cycles, a cycle inside "
-                "a namespace package). "
+                "a namespace package; projects over module names that are string prefixes of one another without being package and "
+                "submodule (package next to prefix-named modules and packages, also one level down): for every such pair the imports in both "
+                "directions, from __init__ files and ordinary modules, arranged so that each is a bridge of its cycle, then rings "
+                "through a related pair and planted graphs with all related imports — cycle set, counts, `check` lines and exit codes "
+                "against the components of the graph the import statements define). "
                 "distinct_nontrivial = graphs with at least one cycle",
         "input_distribution": dict(dist, distinct_small_partitions=len(ck.stats["distinct_codes"]), largest_cycle_seen=ck.stats["max_cycle"],
                                    severities_seen=sorted(ck.stats["sev_seen"])),
